@@ -618,4 +618,20 @@ def specConcLine (v desc progs : String) (raw : String) : String :=
         | _ => if cons == "na" then "ok" else s!"FAIL unparsable consult counter {cons}"
   | _ => s!"FAIL unparsable result {raw}"
 
+/-- `sconc` / `strace` lines: the same programs run as tasks of the controlled scheduler
+(/verif/go/sched); the recorded schedule is the interleaving. The run must reach quiescence with
+every reader finished (no deadlock / lost wake-up, no overrun, no background panic), and every
+result must be the sequential one. -/
+def specSchedLine (v desc progs : String) (raw : String) (traced : Bool) : String :=
+  let parts := raw.splitOn " ## "
+  let parts := if traced then parts.drop 1 else parts
+  match parts with
+  | [rs, cons, status] =>
+    if status == "na" || status.startsWith "err:" then "ok"
+    else if status.startsWith "deadlock" then
+      s!"FAIL under this schedule the readers {status} can never run again (lost wake-up / deadlock); results so far {rs}"
+    else if status != "ok" then s!"FAIL controlled run ended with status {status}"
+    else specConcLine v desc progs (rs ++ " ## " ++ cons)
+  | _ => s!"FAIL unparsable result {raw}"
+
 end Sqroot.Driver
